@@ -155,7 +155,7 @@ def main(argv=None):
         base = _Shape(n=2, S=1, T=1, B=1, H=1).as_dict()
         for kind in ('rake', 'divmod'):
             for ch in ('int', 'real'):
-                tasks.append({'module': 'props.c01', 'fn': 'shared_c19_task', 'kind': kind, 'shape': base, 'chips': ch, 'timeout_ms': 60000,
+                tasks.append({'module': 'props.c01', 'fn': 'shared_c19_task', 'isolate': True, 'kind': kind, 'shape': base, 'chips': ch, 'timeout_ms': 60000,
                               'name': f'{kind}/{ch}'})
     chk.run_tasks(tasks)
     chk.assumptions += ASSUMPTIONS
